@@ -30,7 +30,8 @@ for p in props:
                        "level_claimed": {"category": cat, "text": text, "design_ref": "DESIGN.md section 6 (%s)" % ref},
                        "level_note": (BASE % pid) if cat == "proof" else "Measurement with a counting global allocator on every generated case + a no_std/no-allocator link probe; not a proof (DESIGN.md C05).",
                        "technique": "Coq proof about a hand-written model + differential correspondence check" if cat == "proof" else "allocation counting + no_std link probe"})
-na = [{"property_id": p['id'], "reason": "check under construction in this session: oracle and correspondence run, Coq theorems not yet in place; will be claimed once Properties/%s.v is proved" % p['id']} for p in props if p['id'] not in CLAIMED]
+NA_REASON = {"C05": "machine-checked proof cannot decide heap allocation: it is an effect of the compiled artefact on the allocator; the Gallina model has no heap, and an allocation counter written into it would be zero by construction (DESIGN.md 6/C05). Not claimed. An auxiliary, unclaimed measurement exists (./check C05: counting global allocator on every generated case + no_std/no-allocator link probe)."}
+na = [{"property_id": p['id'], "reason": NA_REASON.get(p['id'], "not claimed")} for p in props if p['id'] not in CLAIMED]
 m = {"version": 1, "setup_cmd": "./setup.sh",
      "hooks": {"guard": "bitcoin_slices_verif", "enable": "RUSTFLAGS=\"--cfg bitcoin_slices_verif\" (set by ./check when it builds harness/ against /repo)",
                "baseline_off_cmd": "cd /repo && cargo test --workspace --no-fail-fast --offline", "source_commits": ["a1a51bb"], "add_only": True},
